@@ -14,3 +14,5 @@ import Scfg.Spec.IterSpec
 import Scfg.Model.Bytecode
 import Scfg.Model.Dispatch
 import Scfg.Spec.RenderSpec
+import Scfg.Py.Syntax
+import Scfg.Py.Micro
